@@ -164,7 +164,9 @@ Dangle(b) ==
 \* Connection._abort_savepoint()
 AbortSavepoint(b) ==
   LET b1 == InvalidateCreating(b, CreSet(b.tmp.cre))
-      b2 == Dangle(InvalidateSet(b1, IdxSet(b.tmp.index)))
+      \* (objects flushed by a savepoint() that raised are in _creating only: they are invalidated here and disowned
+      \* next - InvalidateDoomed; the repaired design leaves them alone)
+      b2 == Dangle(InvalidateSet(b1, IdxSet(b.tmp.index) \ (IF InvalidateDoomed THEN {} ELSE CreSet(b.cn.creating))))
   IN [b2 EXCEPT !.tmp = NoTmp]
 
 \* Connection.abort(transaction)
@@ -241,6 +243,32 @@ SavepointOp(b) ==
                 \* the aliased dict IS the savepoint's: the update shows there too
                 !.sps = IF al # 0 /\ al <= Len(@) THEN [@ EXCEPT ![al].cre = cre2] ELSE @]
 
+\* The same loop when the pickling of object f raises (an unpicklable value at the end of its state): what was
+\* flushed before f is in the savepoint store and in the cache, f itself got as far as Pickle; the writer's queue
+\* is dropped.  Connection._creating has NOT been merged into TmpStore.creating, _registered_objects is as it was.
+RECURSIVE FlushTo(_, _, _, _)
+FlushTo(b, todo, stack, f) ==
+  IF stack # <<>> THEN
+    LET o == stack[Len(stack)]
+        rest == SubSeq(stack, 1, Len(stack) - 1) \o NewKids(b, o)
+    IN IF o = f THEN [ok |-> TRUE, b |-> Pickle(b, o), stack |-> rest]
+       ELSE FlushTo(Put(Pickle(b, o), o, TRUE), todo, rest, f)
+  ELSE IF todo = <<>> THEN [ok |-> FALSE, b |-> b, stack |-> <<>>]
+  ELSE IF ShouldStore(b, Head(todo)) THEN FlushTo(b, Tail(todo), <<Head(todo)>>, f)
+  ELSE FlushTo(b, Tail(todo), <<>>, f)
+\* objects that hold oid and jar but did not reach the cache when a store loop raised: the one being stored if
+\* new, and the writer's queue.  As the code is they are in no set; the repaired design disowns them.
+Unstored(b, o, stack) == (IF b.ob[o].serial = 0 /\ ~b.ob[o].cached THEN {o} ELSE {}) \cup Range(stack)
+DropUnstored(b, un) ==
+  IF LeakUnstored THEN b
+  ELSE [b EXCEPT !.ob = [p \in All |-> IF p \in un THEN Disown(b.ob[p]) ELSE b.ob[p]],
+                 !.cn.creating = [p \in All |-> IF p \in un THEN "-" ELSE @[p]]]
+\* Connection.savepoint() raising while it pickles f
+FlushFails(b, f) ==
+  LET b0 == [b EXCEPT !.tmp = IF b.tmp.on THEN @ ELSE [NoTmp EXCEPT !.on = TRUE], !.cn.creating = NoCre]
+      r == FlushTo(b0, b0.cn.reg, <<>>, f)
+  IN [ok |-> r.ok, b |-> DropUnstored(r.b, Unstored(r.b, f, r.stack))]
+
 (* -------------------------------- derived ------------------------------ *)
 IdleB(b, c) == c.pc = "idle" /\ ~b.cn.joined
 Mon(h, b, c) ==
@@ -268,7 +296,8 @@ LostObj(o) == o \notin Blobs /\ ~ob[o].own /\ ob[o].flag = "ghost"
 Live == /\ \A m \in obs.mon : m.clause = "state-lost"
         /\ \A o \in All : LostObj(o) => \A p \in All : o \notin Range(ob[p].st.kids)
 App == cm.pc = "idle" /\ cn.opened /\ Live
-Act == App /\ cm.n < (IF NBy("c") < MaxCommit THEN MaxAct ELSE MaxTail) /\ cm' = [cm EXCEPT !.n = @ + 1]
+Budget == IF NBy("c") < MaxCommit THEN MaxAct ELSE MaxTail
+Act == App /\ cm.n < Budget /\ cm' = [cm EXCEPT !.n = @ + 1]
 
 (* --------------------------------- Init -------------------------------- *)
 Init ==
@@ -337,6 +366,14 @@ Savepoint ==
      THEN LET b == SavepointOp(B) IN Set(b) /\ sps' = Append(b.sps, SpRec("tmp", b))
      ELSE UNCHANGED <<ob, cn, tmp>> /\ sps' = Append(sps, SpRec("abort", B))
   /\ UNCHANGED hist /\ SetObs({})
+
+\* transaction.savepoint() when the connection's savepoint() raises part-way: Transaction._cleanup calls abort()
+\* (and tpc_abort(), which raises at once: no tpc_begin was made; swallowed), the transaction is marked failed and
+\* the caller aborts it (a stutter for the connection, then the boundary)
+SavepointRaises(f) ==
+  /\ App /\ cm.n < Budget /\ "sp" \in Ops /\ "own" \in Ops /\ cn.joined /\ Len(sps) < MaxSp /\ f \notin Blobs
+  /\ LET r == FlushFails(B, f) IN r.ok /\ Set(Boundary(AbortOp(r.b), hist))
+  /\ sps' = <<>> /\ cm' = Idle /\ UNCHANGED hist /\ SetObs({})
 
 \* Connection._rollback_savepoint(state)
 RollbackOp(b, k) ==
@@ -446,19 +483,18 @@ FailBegun ==
   /\ Failed(B, FALSE)
 
 \* the k-th store raises: pickling (an unpicklable value at the end of the state: every child was seen
-\* by persistent_id first) or the storage (ConflictError).  Objects that hold oid and jar but did not reach
-\* the cache - the one being stored if new, the writer's queue - are in no set.
-Unstored(b, o, stack) == (IF b.ob[o].serial = 0 THEN {o} ELSE {}) \cup Range(stack)
+\* by persistent_id first) or the storage (ConflictError).
 StoreFails(o) ==
   LET b1 == Pickle(B, o)
       c1 == AfterPick(o)
-      un == Unstored(b1, o, c1.stack)
-      b2 == IF LeakUnstored THEN b1
-            ELSE [b1 EXCEPT !.ob = [p \in All |-> IF p \in un THEN Disown(b1.ob[p]) ELSE b1.ob[p]],
-                            !.cn.creating = [p \in All |-> IF p \in un THEN "-" ELSE @[p]]]
-  IN Failed(b2, FALSE)
+  IN Failed(DropUnstored(b1, Unstored(b1, o, c1.stack)), FALSE)
 StoreRaises(o) == Storing /\ "own" \in Ops /\ HasNext /\ o = NextObj /\ ~Conflict(o) /\ StoreFails(o)
 StoreConflict(o) == Storing /\ HasNext /\ o = NextObj /\ Conflict(o) /\ StoreFails(o)
+
+\* commit() with a savepoint store: the savepoint() it takes first raises part-way
+CommitSpRaises(f) ==
+  /\ cm.pc = "begun" /\ tmp.on /\ "own" \in Ops /\ f \notin Blobs
+  /\ LET r == FlushFails(B, f) IN r.ok /\ Failed(r.b, FALSE)
 
 CommitSpConflict ==
   /\ cm.pc = "begun" /\ tmp.on
@@ -502,7 +538,7 @@ OtherCommit(o) ==
 
 Next ==
   \/ \E o \in All : (\E v \in Val : Modify(o, v)) \/ Load(o) \/ AddExplicit(o) \/ OtherCommit(o)
-                    \/ Store(o) \/ StoreRaises(o) \/ StoreConflict(o)
+                    \/ Store(o) \/ StoreRaises(o) \/ StoreConflict(o) \/ SavepointRaises(o) \/ CommitSpRaises(o)
   \/ \E e \in Edges : Link(e[1], e[2]) \/ Unlink(e[1], e[2])
   \/ Savepoint \/ (\E k \in 1..MaxSp : Rollback(k))
   \/ Begin \/ Stored \/ CommitSp \/ CommitSpConflict \/ Vote \/ Finish
